@@ -18,7 +18,7 @@ RULE = ('molecules of 2-12 particles in 1-3 chains with numbering gaps and cross
         'coordinates, negative minimum force (outside the statement). The distance and decay matrices are computed by '
         'the real numeric kernels on the same coordinates and shipped as exact rationals. non-trivial = at least two '
         'selected atoms and at least one pair deciding differently from another; distinct by input')
-ASSUMPTIONS = ['self_distance_matrix and compute_decay are taken from the implementation (validated: d^2 against exact rational arithmetic within 1e-12)',
+ASSUMPTIONS = ['self_distance_matrix and compute_decay are taken from the implementation (validated: d^2 against exact rational arithmetic within 1e-12; the decay against exp(-a(d-lower)^p) recomputed with the math module within 1e-9, NaN for a negative base with a fractional power)',
                'bond lengths are compared within 6e-6 (rounded to 5 decimals), force constants within 1e-9 relative',
                'negative minimum force is outside the property (known finding F11)']
 TRUSTED = ['numeric kernels (numpy sqrt/exp)']
@@ -142,6 +142,26 @@ def run_impl(inp):
                 if ex:
                     worst = max(worst, abs(float((got - ex) / ex)))
         res['kernel_rel_err'] = worst
+        # the documented decay exp(-a (d - lower)^p), recomputed with the math module from the distances
+        a, pw, lower = inp['decay_factor'], inp['decay_power'], inp['lower']
+        bad = None
+        for i in range(len(sel)):
+            for j in range(len(sel)):
+                x = float(d[i][j]) - lower
+                got = float(k[i][j]) / inp['base'] if inp['base'] else None
+                if got is None:
+                    continue
+                if x < 0 and pw != int(pw):
+                    want = float('nan')                      # no real value: numpy gives NaN
+                else:
+                    try:
+                        want = math.exp(-a * math.pow(x, pw))
+                    except (OverflowError, ValueError, ZeroDivisionError):
+                        continue
+                if math.isnan(want) != math.isnan(got) or (not math.isnan(want) and abs(got - want) > 1e-9 * max(1.0, abs(want))):
+                    bad = bad or 'decay for distance %r (lower bound %r, factor %r, power %r): %r, documented exp(-a(d-lower)^p) = %r' % (
+                        float(d[i][j]), lower, a, pw, got, want)
+        res['decay_mismatch'] = bad
     res['dm'], res['km'] = dm, km
     return res
 
@@ -193,6 +213,8 @@ def known(inp, out):
 def py_prop(inp, out):
     if out.get('kernel_rel_err', 0.0) > 1e-12:
         return 'distance kernel deviates from exact arithmetic by %g' % out['kernel_rel_err']
+    if out.get('decay_mismatch'):
+        return out['decay_mismatch']
     return None
 
 
